@@ -101,9 +101,8 @@ package stdlib
 //@   tags C11
 //@   spec_args stdlib.ReplaceFunc
 //
-//@ func stdlib.SetHasElementFunc.Impl
-//@   tags C11
-//@   spec_args stdlib.SetHasElementFunc
+// (sethaselement's Impl is not claimed: Value.HasElement is under a may_panic contract - the bucket scan of
+// the generic set needs representation facts about set payloads that well-formedness does not carry yet.)
 //
 //@ func stdlib.SetProductFunc.Type
 //@   tags C11
